@@ -19,6 +19,7 @@
 #include <urcu/config.h>
 #include <urcu/compiler.h>
 #include <urcu/system.h>
+#include <urcu/verif-hooks.h>
 
 #ifdef __cplusplus
 extern "C" {
@@ -60,6 +61,7 @@ static inline __attribute__((__always_inline__))
 unsigned long __uatomic_cmpxchg(void *addr, unsigned long old,
 			      unsigned long _new, int len)
 {
+	urcu_verif_rmw(addr, len, URCU_VERIF_CMPXCHG);
 	switch (len) {
 	case 1:
 	{
@@ -126,6 +128,7 @@ unsigned long __uatomic_cmpxchg(void *addr, unsigned long old,
 static inline __attribute__((__always_inline__))
 unsigned long __uatomic_exchange(void *addr, unsigned long val, int len)
 {
+	urcu_verif_rmw(addr, len, URCU_VERIF_XCHG);
 	/* Note: the "xchg" instruction does not need a "lock" prefix. */
 	switch (len) {
 	case 1:
@@ -189,6 +192,7 @@ static inline __attribute__((__always_inline__))
 unsigned long __uatomic_add_return(void *addr, unsigned long val,
 				 int len)
 {
+	urcu_verif_rmw(addr, len, URCU_VERIF_ADD_RETURN);
 	switch (len) {
 	case 1:
 	{
@@ -254,6 +258,7 @@ unsigned long __uatomic_add_return(void *addr, unsigned long val,
 static inline __attribute__((__always_inline__))
 void __uatomic_and(void *addr, unsigned long val, int len)
 {
+	urcu_verif_rmw(addr, len, URCU_VERIF_AND);
 	switch (len) {
 	case 1:
 	{
@@ -309,6 +314,7 @@ void __uatomic_and(void *addr, unsigned long val, int len)
 static inline __attribute__((__always_inline__))
 void __uatomic_or(void *addr, unsigned long val, int len)
 {
+	urcu_verif_rmw(addr, len, URCU_VERIF_OR);
 	switch (len) {
 	case 1:
 	{
@@ -364,6 +370,7 @@ void __uatomic_or(void *addr, unsigned long val, int len)
 static inline __attribute__((__always_inline__))
 void __uatomic_add(void *addr, unsigned long val, int len)
 {
+	urcu_verif_rmw(addr, len, URCU_VERIF_ADD);
 	switch (len) {
 	case 1:
 	{
@@ -420,6 +427,7 @@ void __uatomic_add(void *addr, unsigned long val, int len)
 static inline __attribute__((__always_inline__))
 void __uatomic_inc(void *addr, int len)
 {
+	urcu_verif_rmw(addr, len, URCU_VERIF_INC);
 	switch (len) {
 	case 1:
 	{
@@ -475,6 +483,7 @@ void __uatomic_inc(void *addr, int len)
 static inline __attribute__((__always_inline__))
 void __uatomic_dec(void *addr, int len)
 {
+	urcu_verif_rmw(addr, len, URCU_VERIF_DEC);
 	switch (len) {
 	case 1:
 	{
